@@ -15,7 +15,8 @@ META = {
             "still satisfies v.gamma_k = 0), and the forward, expanded-backward and exact-backward matching operators (3x3). For "
             "the QED iterated kernels, whose matrix exponential is numerical, the exponent of every step is proved to satisfy "
             "v.ln = 0 and the result to be the ordered product of exponentials of those exponents. Quark-number conservation of "
-            "scalar kernels (gamma = 0 => kernel = 1) is checked for every non-singlet method.",
+            "scalar kernels (gamma = 0 => kernel = 1) is checked for every non-singlet method."
+            " The kernel the integrand hands to the integration in the expanded scheme is the MATRIX product of the scale-variation factor and the evolution kernel (quad_ker_qcd / quad_ker_qed evaluated with stand-in factors for the QCD singlet, QED singlet and QED valence sectors).",
     "note": "Exact algebra (rounding is not decided). For np.linalg.eig-based exponentials the conclusion v.exp(ln)=v is the "
             "mathematical consequence of the proven v.ln=0. PIT in F_p with modular square roots.",
     "technique": "partial evaluation with constrained symbolic matrices + polynomial identity testing (left-null-vector invariance)",
